@@ -73,7 +73,7 @@ func checkC17Repeat(c *C17Repeat) *Violation {
 func c17Opts(t *rapid.T) Opts {
 	o := Opts{Optimize: rapid.Bool().Draw(t, "opt"), LineMarkers: rapid.Bool().Draw(t, "lm"), FontPath: "@repo", Auto: c16Auto}
 	if o.LineMarkers {
-		o.Path = "f.pory"
+		o.Path = rapid.SampledFrom([]string{"f.pory", `data\maps\Route1\scripts.pory`, "a%b/c.pory"}).Draw(t, "path")
 	}
 	switch rapid.IntRange(0, 5).Draw(t, "fontopt") {
 	case 0:
